@@ -18,7 +18,7 @@ RULE = ('(a) Library round trip through the harness: samples are built in memory
         '(in-memory route, k=17) against `ska build` + the same command on the file.  (c) Narrow files: for k in '
         '{33,35,37,41,51,63}, tables whose stored k-mers all fit in 64 bits (arms starting with enough A) next to ordinary '
         'rows-shifted copies; nk, align, map, distance, weed, delete and merge in both argument orders must agree with the '
-        'model, and nk must report k_bits=128.  (e) Files whose table is empty after weeding/filtering (samples, no k-mers): read-out and merge as first, last and middle argument against the model.  (d) One build/save/load/read-out per width under Miri (quick: k=33; thorough: k=9,31,33,63), compared with the native run.  Non-trivial: the file has at least one k-mer and (c) really fits in 64 bits; '
+        'model, and nk must report k_bits=128.  (e) Files whose table is empty after weeding/filtering (samples, no k-mers): read-out and merge as first, last and middle argument against the model.  (d) One build/save/load/read-out per width under Miri (quick: read-out at k=33; thorough: read-out at k=9,31,33,63 and align/weed/delete/map/distance at k=9 and 33), compared with the native run.  Non-trivial: the file has at least one k-mer and (c) really fits in 64 bits; '
         'distinct = distinct (k, mode, input, operation).')
 ASSUMPTIONS = ['in-memory vs reloaded comparison is model-free; part (c) uses the reference model',
                'the harness reload mimics the command-line width dispatch (u64 first, then u128)']
@@ -51,7 +51,11 @@ def plan(tier, seed, rng, scale):
     for i, d in enumerate(descs):
         d['chk'] = d['kind'] == 'narrow' and i % 4 == 0
     for k in ([33] if tier == 'quick' else [9, 31, 33, 63]):
-        descs.append({'kind': 'miri', 'k': k, 'seed': rng.getrandbits(32)})
+        descs.append({'kind': 'miri', 'k': k, 'op': 'nk', 'seed': rng.getrandbits(32)})
+    if tier == 'thorough':
+        for k in (9, 33):
+            for op in ('align', 'weed', 'delete', 'map', 'dist'):
+                descs.append({'kind': 'miri', 'k': k, 'op': op, 'seed': rng.getrandbits(32)})
     for i in range(int((60 if tier == 'quick' else 600) * scale)):
         descs.append({'kind': 'empty', 'k': rng.choice([9, 17, 31, 33, 41, 63]), 'rc': rng.random() < 0.7, 'seed': rng.getrandbits(32)})
     return descs
@@ -355,9 +359,16 @@ def run_miri(desc, ctx, res):
     from .. import build
     k = desc['k']
     rng = random.Random(desc['seed'])
-    G.write_fa(ctx.path('m.fa'), [G.rseq(rng, k + 10)])
-    args = ['rt', 'disk', str(k), '1', ctx.path('m.skf'), 'nk', '--', ctx.path('m.fa')]
-    cmd, env, cwd = build.miri_cmd(args)
+    base = G.rseq(rng, k + 10)
+    other = base[:k // 2] + ('A' if base[k // 2] != 'A' else 'C') + base[k // 2 + 1:]
+    G.write_fa(ctx.path('m.fa'), [base])
+    G.write_fa(ctx.path('m2.fa'), [other])
+    ctx.write('mref.fa', '>r\n%s\n' % base)
+    opargs = {'nk': ['nk'], 'align': ['align', 'no-const', '0', '0', '0', '0'], 'dist': ['dist', '0'],
+              'weed': ['weed', ctx.path('m2.fa'), '0'], 'delete': ['delete', 's1'],
+              'map': ['map', ctx.path('mref.fa'), '0', '1', 'aln']}[desc.get('op', 'nk')]
+    args = ['rt', 'disk', str(k), '1', ctx.path('m.skf')] + opargs + ['--', ctx.path('m.fa'), ctx.path('m2.fa')]
+    cmd, env, cwd = build.miri_cmd(args, tree_borrows=desc.get('op') in ('map', 'dist'))
     try:
         p = subprocess.run(cmd, cwd=cwd, env=env, capture_output=True, text=True, timeout=1500)
     except subprocess.TimeoutExpired:
@@ -369,11 +380,14 @@ def run_miri(desc, ctx, res):
         raise Inconclusive('miri run failed: ' + p.stderr[-300:])
     q = ctx.sh(ctx.bins['harness'], *args)
     res.evals += 1
-    if q.returncode != 0 or norm('nk', p.stdout) != norm('nk', q.stdout):
+    op = desc.get('op', 'nk')
+    op = 'nk' if op in ('weed', 'delete') else op
+    if q.returncode != 0 or norm(op, p.stdout) != norm(op, q.stdout):
         res.violate('C09:miri-differs', 'k=%d: round trip under Miri differs from the native run' % k, {'miri': p.stdout[:2000], 'native': q.stdout[:2000]})
     else:
         res.count('miri_round_trips')
-        res.nontrivial.append(fingerprint(['miri', k, desc['seed']]))
+        res.count('miri_op:' + desc.get('op', 'nk'))
+        res.nontrivial.append(fingerprint(['miri', k, desc.get('op'), desc['seed']]))
 
 
 def run_empty(desc, ctx, res):
